@@ -602,9 +602,9 @@ package db
 //@ ensures[fresh] err == nil ==> result0 != nil && fresh(result0)
 //@ ensures[fail] err != nil ==> result0 == nil
 //@ func rdbdriver.Reload
-//@ updates opens, openedPath, catchups
+//@ updates opens, openedPath, catchups, chanrecvs, chansends
 //@ flag skip frame
-//@ requires r.db != nil
-//@ ensures[catchup] path == r.path ==> catchups == old(catchups) + 1 && opens == old(opens) && (err == nil ==> result0 == r)
+//@ requires r.db != nil && r.db.iteratorPool != nil && r.db.db != nil
+//@ ensures[catchup] path == r.path ==> opens == old(opens) && (err == nil ==> result0 == r && catchups == old(catchups) + 1)
 //@ ensures[switch] path != r.path ==> opens == old(opens) + 1 && openedPath == path && catchups == old(catchups) && (err == nil ==> result0 != nil && fresh(result0) && result0 != r)
 //@ ensures[fail] err != nil ==> result0 == nil
